@@ -70,9 +70,16 @@ func (f *FIXUTCTimestamp) Read(bytes []byte) (err error) {
 		err = errors.New("Invalid Value for Timestamp: " + string(bytes))
 	}
 
-	// time.Parse also accepts ',' before the fractional seconds, FIX only '.'.
-	if err == nil && len(bytes) > 17 && bytes[17] != '.' {
-		err = errors.New("Invalid Value for Timestamp: " + string(bytes))
+	// time.Parse also accepts ',' before the fractional seconds and a sign in front of them, FIX only '.' and digits.
+	if err == nil && len(bytes) > 17 {
+		if bytes[17] != '.' {
+			err = errors.New("Invalid Value for Timestamp: " + string(bytes))
+		}
+		for _, b := range bytes[18:] {
+			if !isDecimal(b) {
+				err = errors.New("Invalid Value for Timestamp: " + string(bytes))
+			}
+		}
 	}
 
 	return
